@@ -135,7 +135,7 @@ Print Assumptions C09_upper_guard_inhabited.
 
 (* ---- the source still has the shape the model was written for.  PV.Gen.Scopes is regenerated
    on every run from stacked_scopes.py (FunctionScope.subscope, loop_scope, get_combined_scope,
-   combine_subscopes, suppressing_subscope, set, get_local) and name_check_visitor.py (visit_If,
+   combine_subscopes, suppressing_subscope, set, get_local, _add_single_constraint) and name_check_visitor.py (visit_If,
    visit_While, visit_For, _handle_loop_else, visit_try_except, visit_Try, visit_With,
    visit_single_cm, visit_Break/Continue/Return/Raise): the scope program of each function
    (see harness/translate/scopes.py) must equal the one recorded in Scopes/Shapes.v. *)
@@ -144,11 +144,13 @@ Theorem C09_source_scope_operations_unchanged :
   gen_scope_get_combined_scope = exp_scope_get_combined_scope /\
   gen_scope_combine_subscopes = exp_scope_combine_subscopes /\
   gen_scope_suppressing_subscope = exp_scope_suppressing_subscope /\
-  gen_scope_set = exp_scope_set /\ gen_scope_get_local = exp_scope_get_local.
+  gen_scope_set = exp_scope_set /\ gen_scope_get_local = exp_scope_get_local /\
+  gen_scope__add_single_constraint = exp_scope__add_single_constraint.
 Proof.
   exact (conj gen_scope_subscope_is_expected (conj gen_scope_loop_scope_is_expected
     (conj gen_scope_get_combined_scope_is_expected (conj gen_scope_combine_subscopes_is_expected
-    (conj gen_scope_suppressing_subscope_is_expected (conj gen_scope_set_is_expected gen_scope_get_local_is_expected)))))).
+    (conj gen_scope_suppressing_subscope_is_expected (conj gen_scope_set_is_expected
+    (conj gen_scope_get_local_is_expected gen_scope__add_single_constraint_is_expected))))))).
 Qed.
 Print Assumptions C09_source_scope_operations_unchanged.
 
